@@ -7,7 +7,7 @@ use crate::util::{fit_or_skip, usable};
 use linfa::dataset::Pr;
 use linfa::prelude::*;
 use linfa_svm::Svm;
-use ndarray::{Array1, ArrayView1};
+use ndarray::{Array1, Array2, ArrayView1};
 use vengine::Obs;
 
 fn kernel_class(obs: &mut Obs, gaussian: bool) {
@@ -38,6 +38,7 @@ pub fn check_svm_bool(c: &Case, obs: &mut Obs) {
     let spec = Spec::strict(true);
     let pred = any_layout::<_, Array1<bool>>(&model);
     if let Some(info) = driver::run(obs, c, &pred, &spec) {
+        single_sample_bool(obs, &info, &model);
         for (i, x) in info.rows.iter().enumerate() {
             let val = model.weighted_sum(&ArrayView1::from(&x[..])) - model.rho;
             let got = info.single[i][0] == 1.0;
@@ -90,6 +91,13 @@ fn svm_pr(c: &Case, obs: &mut Obs, extreme: bool) {
         case::query(c)
     };
     if let Some(info) = driver::run_rows(obs, c, &pred, &spec, query) {
+        driver::check_single_sample(
+            obs,
+            &info,
+            "Svm<Pr>::predict(sample)",
+            &|v| { let p: Pr = model.predict(v); *p as f64 },
+            &|v| { let p: Pr = model.predict(v); *p as f64 },
+        );
         obs.class_if(info.single.iter().any(|r| r[0] == 0.0), "svm_pr_saturated_at_0");
         obs.class_if(info.single.iter().any(|r| r[0] == 1.0), "svm_pr_saturated_at_1");
         // probability in [0,1], monotone (one direction for the whole batch) in the decision value
@@ -132,6 +140,13 @@ pub fn check_svm_reg(c: &Case, obs: &mut Obs) {
     let spec = Spec::strict(false);
     let pred = any_layout::<_, Array1<f64>>(&model);
     if let Some(info) = driver::run(obs, c, &pred, &spec) {
+        driver::check_single_sample(
+            obs,
+            &info,
+            "Svm<f64>::predict(sample)",
+            &|v| { let y: f64 = model.predict(v); y },
+            &|v| { let y: f64 = model.predict(v); y },
+        );
         for (i, x) in info.rows.iter().enumerate() {
             let val = model.weighted_sum(&ArrayView1::from(&x[..])) - model.rho;
             obs.ensure(val.to_bits() == info.single[i][0].to_bits(), "reference:decision-value", || {
@@ -159,6 +174,7 @@ pub fn check_svm_oneclass(c: &Case, obs: &mut Obs) {
     let spec = Spec::strict(true);
     let pred = any_layout::<_, Array1<bool>>(&model);
     if let Some(info) = driver::run(obs, c, &pred, &spec) {
+        single_sample_bool(obs, &info, &model);
         for (i, x) in info.rows.iter().enumerate() {
             let val = model.weighted_sum(&ArrayView1::from(&x[..])) - model.rho;
             let got = info.single[i][0] == 1.0;
@@ -166,6 +182,128 @@ pub fn check_svm_oneclass(c: &Case, obs: &mut Obs) {
             obs.class_if(!got, "svm_predicts_false");
             obs.ensure(got == (val >= 0.0), "reference:decision-sign", || {
                 format!("one-class SVM labels {x:?} as {got}; weighted_sum - rho = {val:e}")
+            });
+        }
+    }
+}
+
+fn single_sample_bool(obs: &mut Obs, info: &driver::RunInfo, model: &Svm<f64, bool>) {
+    driver::check_single_sample(
+        obs,
+        info,
+        "Svm<bool>::predict(sample)",
+        &|v| { let b: bool = model.predict(v); if b { 1.0 } else { 0.0 } },
+        &|v| { let b: bool = model.predict(v); if b { 1.0 } else { 0.0 } },
+    );
+}
+
+// ------------------------------------------------------------------------------------------------
+// exact-boundary stratum for the classifiers
+
+/// Point-symmetric, integer-valued training set (points p_i labelled true, -p_i labelled false): with a
+/// linear kernel the solver returns rho == 0.0 exactly for most such sets, so the origin, every vector
+/// orthogonal to w and every pair (q, -q) straddle / sit on the decision boundary. In a third of the cases
+/// (and always for the Gaussian kernel and the one-class model) the public field `rho` is set to the
+/// weighted sum of the first query row, which puts that row on the boundary exactly whatever the kernel.
+/// Queries: origin, orthogonal vectors, training points, their mirrors and multiples, integer fresh rows and
+/// their mirrors. All forms (batch, layouts, buffers, single-sample Ix1 entry point) must agree bit for bit;
+/// no tolerance is involved because the Ix1 and Ix2 paths call the same `weighted_sum`.
+pub fn check_svm_boundary(c: &Case, obs: &mut Obs) {
+    if !usable(c, obs) {
+        return;
+    }
+    let p = c.p();
+    let k = (c.n() / 2).clamp(2, 10);
+    let mut pts: Vec<Vec<f64>> = c.train.iter().take(k).map(|r| r.iter().map(|v| (v * 2.0).round().clamp(-6.0, 6.0)).collect()).collect();
+    for (i, r) in pts.iter_mut().enumerate() {
+        if r.iter().all(|v| *v == 0.0) {
+            r[i % p] = 1.0 + (i % 3) as f64;
+        }
+    }
+    let mut rows_x: Vec<Vec<f64>> = pts.clone();
+    rows_x.extend(pts.iter().map(|r| r.iter().map(|v| -v).collect::<Vec<f64>>()));
+    let x: Array2<f64> = case::to_array(&rows_x, p);
+    let y = Array1::from((0..2 * k).map(|i| i < k).collect::<Vec<bool>>());
+    let one_class = c.opt(1, 4) == 3;
+    let gaussian = c.opt(0, 3) == 2;
+    kernel_class(obs, gaussian);
+    let fitted: Option<Svm<f64, bool>> = if one_class {
+        obs.class("boundary_one_class");
+        let ds = Dataset::new(x, Array1::<()>::from_elem(2 * k, ()));
+        let mut params = Svm::<f64, Pr>::params().eps(1e-5).nu_weight(0.5);
+        params = if gaussian { params.gaussian_kernel(3.0) } else { params.linear_kernel() };
+        fit_or_skip(obs, || params.fit(&ds))
+    } else {
+        obs.class("boundary_c_svc");
+        let ds = Dataset::new(x, y);
+        let cw = [1.0, 0.25, 8.0][c.opt(2, 3) as usize];
+        let mut params = Svm::<f64, bool>::params().eps(1e-5).pos_neg_weights(cw, cw);
+        params = if gaussian { params.gaussian_kernel(3.0) } else { params.linear_kernel() };
+        fit_or_skip(obs, || params.fit(&ds))
+    };
+    let Some(mut model) = fitted else { return };
+    if !model_ok(&model) {
+        obs.skip("skipped_nonfinite_parameters");
+        return;
+    }
+    obs.class_if(model.rho == 0.0, "boundary_rho_exactly_zero_from_fit");
+    // w_j = weighted_sum(e_j) (exact for the linear kernel: all other terms are w_k * 0)
+    let unit = |j: usize| -> Vec<f64> { (0..p).map(|l| if l == j { 1.0 } else { 0.0 }).collect() };
+    let w: Vec<f64> = (0..p).map(|j| model.weighted_sum(&ArrayView1::from(&unit(j)[..]))).collect();
+    let mut pool: Vec<Vec<f64>> = vec![vec![0.0; p]];
+    if p >= 2 {
+        // (w1, -w0, 0, ..): fl(w0*w1) - fl(w1*w0) == 0 exactly
+        let mut o = vec![0.0; p];
+        o[0] = w[1];
+        o[1] = -w[0];
+        pool.push(o.clone());
+        pool.push(o.iter().map(|v| -2.0 * v).collect());
+    }
+    for r in pts.iter().take(4) {
+        pool.push(r.clone());
+        pool.push(r.iter().map(|v| -v).collect());
+        pool.push(r.iter().map(|v| 3.0 * v).collect());
+    }
+    for r in c.fresh.iter().take(3) {
+        let q: Vec<f64> = r.iter().map(|v| (v * 2.0).round()).collect();
+        pool.push(q.iter().map(|v| -v).collect());
+        pool.push(q);
+    }
+    let mut rows: Vec<Vec<f64>> = vec![];
+    let mut origin = vec![];
+    for &(kind, i) in &c.picks {
+        if kind % 3 == 2 && !rows.is_empty() {
+            let r = rows[vengine::gen::idx(i, rows.len())].clone();
+            rows.push(r);
+            origin.push(case::Origin::Dup);
+        } else {
+            rows.push(pool[vengine::gen::idx(i, pool.len())].clone());
+            origin.push(if kind % 3 == 0 { case::Origin::Train } else { case::Origin::Fresh });
+        }
+    }
+    let assigned = (gaussian || one_class || c.opt(1, 3) == 0) && !rows.is_empty();
+    if assigned {
+        obs.class("boundary_by_rho_assignment");
+        let ws = model.weighted_sum(&ArrayView1::from(&rows[0][..]));
+        if ws.is_finite() {
+            model.rho = ws;
+        }
+    }
+    let on_boundary = rows.iter().filter(|r| model.weighted_sum(&ArrayView1::from(&r[..])) - model.rho == 0.0).count();
+    obs.class_if(on_boundary >= 1, "decision_value_exactly_zero");
+    obs.class_if(on_boundary >= 1 && !assigned, "decision_value_exactly_zero_with_fitted_rho");
+    obs.class_if(on_boundary >= 1 && on_boundary < rows.len(), "boundary_and_interior_rows_mixed");
+    let spec = Spec::strict(true);
+    let pred = any_layout::<_, Array1<bool>>(&model);
+    if let Some(info) = driver::run_rows(obs, c, &pred, &spec, case::Query { rows, origin }) {
+        single_sample_bool(obs, &info, &model);
+        for (i, x) in info.rows.iter().enumerate() {
+            let val = model.weighted_sum(&ArrayView1::from(&x[..])) - model.rho;
+            let got = info.single[i][0] == 1.0;
+            obs.class_if(got, "svm_predicts_true");
+            obs.class_if(!got, "svm_predicts_false");
+            obs.ensure(got == (val >= 0.0), "reference:decision-sign", || {
+                format!("SVM labels {x:?} as {got}; weighted_sum - rho = {val:e}")
             });
         }
     }
